@@ -325,29 +325,28 @@ Qed.
 Definition owed (ep : option N) : N := match ep with Some n => n | None => 0 end.
 
 Lemma v3_size_agrees_packet : forall max_size ep p dst dst' ep',
-  get_encoded_size p <= U32MAX ->
   encodev max_size ep (EPacket p) dst = (dst', ep', Ok tt) ->
   exists vi, enc_vi (get_encoded_size p) = Some vi /\
     dst' = dst ++ packet_type_of p :: vi ++ body p /\
-    len (body p) = get_encoded_size p /\ ep = None /\ ep' = None /\ packet_fits p = true.
+    len (body p) = get_encoded_size p /\ ep = None /\ ep' = None /\ packet_fits p = true /\
+    get_encoded_size p <= VI_MAX.
 Proof.
-  intros ms ep p dst dst' ep' Hs. unfold encodev. cbn [encode_item].
+  intros ms ep p dst dst' ep'. unfold encodev. cbn [encode_item].
   destruct ep as [n|]; [intros [= ]|].
-  rewrite as_u32_small by exact Hs.
+  destruct (VI_MAX <? get_encoded_size p) eqn:Ev; [intros [= ]|].
+  assert (Hv' : get_encoded_size p <= VI_MAX) by lia.
+  rewrite as_u32_small by (unfold VI_MAX, U32MAX in *; lia).
   destruct (encode p (get_encoded_size p)) as [w r] eqn:E.
   destruct r as [[]|e|s]; cbn [bind]; intros [= <- <-].
   assert (W : wok (encode p (get_encoded_size p))) by (rewrite E; reflexivity).
   apply encode_wok in W as [Hf Hv].
-  assert (Hv' : get_encoded_size p <= VI_MAX).
-  { destruct Hv as [Hp|Hv]; [|exact Hv]. rewrite (ping_size _ Hp). unfold VI_MAX. lia. }
   destruct (enc_vi_some _ Hv') as [vi Hvi]. exists vi.
   rewrite (encode_ok p _ vi Hf Hvi (ping_size p)) in E. injection E as <-.
   repeat split; auto using body_len.
 Qed.
 
 Lemma v3_size_agrees_publish : forall max_size ep p buf dst dst' ep',
-  get_encoded_publish_size p <= U32MAX ->
-  opt_ok (fun b => len b <=? U32MAX) buf = true ->
+  p_payload_size p <= U32MAX ->
   encodev max_size ep (EPublish p buf) dst = (dst', ep', Ok tt) ->
   let size := get_encoded_publish_size p in
   let sent := match buf with Some b => b | None => [] end in
@@ -355,25 +354,27 @@ Lemma v3_size_agrees_publish : forall max_size ep p buf dst dst' ep',
     dst' = dst ++ pub_first_byte p :: vi ++ pub_head p ++ sent /\
     len (pub_head p ++ sent) + owed ep' = size /\
     len sent + owed ep' = p_payload_size p /\
-    publish_fits p = true /\ (max_size = 0 \/ size <= max_size).
+    publish_fits p = true /\ size <= VI_MAX /\ (max_size = 0 \/ size <= max_size).
 Proof.
-  intros ms ep p buf dst dst' ep' Hs Hb. unfold encodev. cbn [encode_item].
+  intros ms ep p buf dst dst' ep' Hps. unfold encodev. cbn [encode_item].
   destruct (is_qos12 (p_qos p) && match p_packet_id p with Some _ => false | None => true end);
     [intros [= ]|].
-  rewrite as_u32_small by exact Hs.
-  destruct (negb (ms =? 0) && (ms <? get_encoded_publish_size p)) eqn:Em; [intros [= ]|].
-  destruct (encode_publish p (get_encoded_publish_size p)) as [w r] eqn:E.
+  destruct ((VI_MAX <? get_encoded_publish_size p)
+            || (negb (ms =? 0) && (ms <? get_encoded_publish_size p))) eqn:Em; [intros [= ]|].
+  assert (Hv : get_encoded_publish_size p <= VI_MAX) by lia.
   assert (Hm : ms = 0 \/ get_encoded_publish_size p <= ms) by lia.
+  rewrite as_u32_small by (unfold VI_MAX, U32MAX in *; lia).
+  destruct (match buf with Some b => p_payload_size p <? len b | None => false end) eqn:Eb; [intros [= ]|].
+  destruct (encode_publish p (get_encoded_publish_size p)) as [w r] eqn:E.
   destruct r as [[]|e|s]; [|intros [= ]|intros [= ]].
   assert (W : wok (encode_publish p (get_encoded_publish_size p))) by (rewrite E; reflexivity).
-  apply encode_publish_wok in W as [Hf Hv].
+  apply encode_publish_wok in W as [Hf _].
   destruct (enc_vi_some _ Hv) as [vi Hvi].
   rewrite (encode_publish_ok p _ vi Hf Hvi) in E. injection E as <-.
   pose proof Hf as Hf'. unfold publish_fits in Hf'. apply andb_true_iff in Hf' as [_ Hq].
   pose proof (pub_head_len p Hq) as Hl.
-  destruct buf as [b|]; cbn [opt_ok] in Hb.
-  - rewrite as_u32_small by lia. unfold sub_chk.
-    destruct (len b <=? p_payload_size p) eqn:Eb; [|intros [= ]].
+  destruct buf as [b|].
+  - rewrite as_u32_small by lia. rewrite sub_chk_ok by lia.
     intros [= <- <-]. exists vi. cbn zeta. split; [exact Hvi|]. split.
     { cbn [app]. now rewrite <- !app_assoc. }
     unfold nz32. destruct (p_payload_size p - len b =? 0) eqn:Ez; cbn [owed]; lens; repeat split; auto; lia.
@@ -388,19 +389,90 @@ Definition item_size (it : encoded) : N :=
 
 (* C09, both frame-producing items at once: one frame, truthful remaining length = reported size *)
 Lemma v3_size_agrees : forall max_size ep it dst dst' ep',
-  (match it with EChunk _ => False | _ => True end) ->
-  item_size it <= U32MAX ->
-  (match it with EPublish _ (Some b) => len b <= U32MAX | _ => True end) ->
+  (match it with EChunk _ => False | EPublish p _ => p_payload_size p <= U32MAX | _ => True end) ->
   encodev max_size ep it dst = (dst', ep', Ok tt) ->
   exists vi body',
     enc_vi (item_size it) = Some vi /\
     dst' = dst ++ item_first_byte it :: vi ++ body' /\
     len body' + owed ep' = item_size it.
 Proof.
-  intros ms ep it dst dst' ep' Hk Hs Hb H. destruct it as [p|p buf|c]; [| |contradiction].
-  - apply v3_size_agrees_packet in H as (vi & Hvi & -> & Hl & -> & -> & _); [|exact Hs].
+  intros ms ep it dst dst' ep' Hk H. destruct it as [p|p buf|c]; [| |contradiction].
+  - apply v3_size_agrees_packet in H as (vi & Hvi & -> & Hl & -> & -> & _).
     exists vi, (body p). cbn [item_size item_first_byte owed]. repeat split; auto. lia.
-  - apply v3_size_agrees_publish in H as (vi & Hvi & -> & Hl & _); [|exact Hs|].
-    + exists vi. eexists. cbn [item_size item_first_byte]. repeat split; eauto.
-    + destruct buf; cbn [opt_ok]; [lia|reflexivity].
+  - apply v3_size_agrees_publish in H as (vi & Hvi & -> & Hl & _); [|exact Hk].
+    exists vi. eexists. cbn [item_size item_first_byte]. repeat split; eauto.
+Qed.
+
+(* over-size packets are refused, nothing is written and nothing panics (the var-int writer's panic
+   is unreachable through the codec) *)
+Lemma v3_oversize_encode_refused : forall max_size p dst,
+  VI_MAX < get_encoded_size p ->
+  encodev max_size None (EPacket p) dst = (dst, None, Err EE_OverMaxPacketSize).
+Proof.
+  intros ms p dst H. unfold encodev. cbn [encode_item].
+  replace (VI_MAX <? get_encoded_size p) with true by lia. now rewrite truncate_pages_app.
+Qed.
+
+(* the encoder never panics on values the Rust types can hold (payload_size is a u32) *)
+Lemma w_then_np a k : np (snd a) -> np (snd k) -> np (snd (a ;; k)).
+Proof. destruct a as [b [[]|e|s]], k as [b' r]; cbn; auto. Qed.
+Lemma w_bytes_np b : np (snd (w_bytes b)).
+Proof. exact I. Qed.
+Lemma w_bytes16_np b : np (snd (w_bytes16 b)).
+Proof. unfold w_bytes16. destruct (_ <=? _); exact I. Qed.
+Lemma w_varlen_np n : n <= VI_MAX -> np (snd (w_varlen n)).
+Proof. intros H. destruct (enc_vi_some n H) as [b Hb]. now rewrite (w_varlen_ok _ _ Hb). Qed.
+Lemma w_sub_filters_np fs : np (snd (w_sub_filters fs)).
+Proof.
+  induction fs as [|[f q] r IH]; cbn [w_sub_filters]; [exact I|].
+  repeat apply w_then_np; auto using w_bytes_np, w_bytes16_np.
+Qed.
+Lemma w_unsub_filters_np fs : np (snd (w_unsub_filters fs)).
+Proof.
+  induction fs as [|f r IH]; cbn [w_unsub_filters]; [exact I|].
+  repeat apply w_then_np; auto using w_bytes_np, w_bytes16_np.
+Qed.
+Lemma encode_connect_np c : np (snd (encode_connect c)).
+Proof.
+  unfold encode_connect, w_u16.
+  repeat apply w_then_np; auto using w_bytes_np, w_bytes16_np.
+  - destruct (c_last_will c); cbn [w_opt]; [|exact I]. apply w_then_np; apply w_bytes16_np.
+  - destruct (c_username c); cbn [w_opt]; [apply w_bytes16_np|exact I].
+  - destruct (c_password c); cbn [w_opt]; [apply w_bytes16_np|exact I].
+Qed.
+Lemma encode_np p n : n <= VI_MAX -> np (snd (encode p n)).
+Proof.
+  intros H. destruct p; cbn [encode]; unfold w_u16;
+    repeat apply w_then_np;
+    auto using w_bytes_np, w_bytes16_np, w_varlen_np, w_sub_filters_np, w_unsub_filters_np, encode_connect_np.
+Qed.
+Lemma encode_publish_np p n : n <= VI_MAX -> np (snd (encode_publish p n)).
+Proof.
+  intros H. unfold encode_publish.
+  repeat apply w_then_np; auto using w_bytes_np, w_bytes16_np, w_varlen_np.
+  destruct (p_qos p), (p_packet_id p); exact I.
+Qed.
+
+Lemma v3_encode_total : forall max_size ep it dst,
+  (match it with EPublish p _ => p_payload_size p <= U32MAX | _ => True end) ->
+  np (snd (encodev max_size ep it dst)).
+Proof.
+  intros ms ep it dst Hk. unfold encodev.
+  assert (H : np (snd (encode_item ms ep it))).
+  { destruct it as [p|p buf|c]; cbn [encode_item].
+    - destruct ep; [exact I|]. destruct (VI_MAX <? get_encoded_size p) eqn:Ev; [exact I|].
+      rewrite as_u32_small by (unfold VI_MAX, U32MAX in *; lia).
+      pose proof (encode_np p (get_encoded_size p) ltac:(lia)) as Hn.
+      destruct (encode p (get_encoded_size p)) as [w [[]|e|s]]; cbn [snd bind] in *; auto.
+    - destruct (_ && _); [exact I|].
+      destruct ((VI_MAX <? get_encoded_publish_size p) || _) eqn:Em; [exact I|].
+      rewrite as_u32_small by (unfold VI_MAX, U32MAX in *; lia).
+      destruct (match buf with Some b => p_payload_size p <? len b | None => false end) eqn:Eb; [exact I|].
+      pose proof (encode_publish_np p (get_encoded_publish_size p) ltac:(lia)) as Hn.
+      destruct (encode_publish p (get_encoded_publish_size p)) as [w [[]|e|s]]; cbn [snd] in *; auto.
+      destruct buf as [b|]; [|exact I].
+      rewrite as_u32_small by lia. rewrite sub_chk_ok by lia. exact I.
+    - destruct ep as [n|]; [|exact I]. destruct (n <? as_u32 (len c)) eqn:E; [exact I|].
+      rewrite sub_chk_ok by lia. exact I. }
+  destruct (encode_item ms ep it) as [w [ep2|e|s]]; cbn [snd] in *; auto.
 Qed.
